@@ -215,6 +215,9 @@ def wide_histories(ctx):
         real.cleanup()
 
 
+SCRIBBLES = [0]
+
+
 def histories_int(ctx):
     from spacepackets.seqcount import SeqCountProvider
     from spacepackets.ccsds.spacepacket import PacketSeqCtrl, SequenceFlags
@@ -228,7 +231,7 @@ def histories_int(ctx):
         real.new_instance()
         yield {"op": "restart", "ret": "none", "file": real.get_file()}
         ncalls = 2 ** w + 120 + rng.randrange(0, 50)      # well past the rollover: the count gains digits again over a stale tail
-        faults_at = set(rng.sample(range(ncalls), 6))
+        faults_at = set(rng.sample(range(ncalls), 12))
         for i in range(ncalls):
             if rng.random() < 0.02:
                 real.new_instance()
@@ -245,12 +248,14 @@ def histories_int(ctx):
                 else:
                     keep = real.get_file()
                     # (the last four: octets that are not text at all inside the count line)
-                    bad = rng.choice([b"", b"\n", b"abc\n", b"-5\n", str(2 ** w).encode() + b"\n", b"1.5\n", b" 7\n",
-                                      b"1\xff2\n", b"\xfe7\n", b"\xff\n", b"3\x80\n",
-                                      # signs, prefixes, separators, exponents; and VALID multi-line contents whose count is
-                                      # about to gain a digit (what a rollover leaves behind: "0\n383\n" ... "9\n383\n")
-                                      b"-0\n", b"-00\n", b"+0\n", b"+5\n", b"0x1\n", b"1_0\n", b"1e0\n", b"0b1\n",
-                                      b"9\n383\n", b"9\n383\n", b"99\n7\n", b"1\n\n\n"])
+                    menu = [b"", b"\n", b"abc\n", b"-5\n", str(2 ** w).encode() + b"\n", b"1.5\n", b" 7\n",
+                            b"1\xff2\n", b"\xfe7\n", b"\xff\n", b"3\x80\n",
+                            # signs, prefixes, separators, exponents; and VALID multi-line contents whose count is
+                            # about to gain a digit (what a rollover leaves behind: "0\n383\n" ... "9\n383\n")
+                            b"-0\n", b"-00\n", b"+0\n", b"+5\n", b"0x1\n", b"1_0\n", b"1e0\n", b"0b1\n",
+                            b"9\n383\n", b"99\n7\n", b"1\n\n\n"]
+                    bad = menu[SCRIBBLES[0] % len(menu)]       # every content is used, in turn
+                    SCRIBBLES[0] += 1
                     real.set_file({"c": list(bad)})
                     yield {"op": "scribble", "ret": "none", "file": real.get_file()}
                     yield {"op": "next_file", "ret": real.call("next_file"), "file": real.get_file()}
